@@ -69,6 +69,10 @@ let check_resolve (id : int) (kind : string) (specs : spec list) (outs : sx list
   let dup_names = List.length (List.sort_uniq compare names) < n_items in
   let amb = ambiguous_keys id_choices dis items in
   let maxp = int_of_nat (max_providers items) in
+  (* every property failure names the region of the input space it lies in *)
+  let region = if maxp <= 1 then "[unchained]" else if maxp >= 3 then "[three-providers]"
+    else if renames_shapeb items then "[chained:renames-shape]" else "[chained:other-shape]" in
+  let propfail id text = propfail id (region ^ " " ^ text) in
   count "resolve_cases";
   if not in_domain then count "resolve_outside_domain";
   if amb <> [] then count "resolve_chained";
@@ -89,7 +93,7 @@ let check_resolve (id : int) (kind : string) (specs : spec list) (outs : sx list
       if amb <> [] then begin
         (* more map orders before giving up *)
         let seed = ref 49 in
-        while not (Hashtbl.mem model so) && !seed < 3000 do add_model (seeded_choices !seed); incr seed done
+        while not (Hashtbl.mem model so) && !seed < 60 do add_model (seeded_choices !seed); incr seed done
       end;
       if Hashtbl.mem model so then ()
       else if Hashtbl.mem model "(unspec)" then count "resolve_model_unspecified"
